@@ -127,6 +127,16 @@ pub fn hub_sync(local_root: &Path, target: &str) -> Result<(), Box<dyn std::erro
     let mut client = HubClient::connect(target)?;
     let hub = client.list()?;
     let local = discover_local_fingerprints(local_root)?;
+    // Wire paths are UTF-8 text. A lossy rendering would land the file at some
+    // OTHER hub path (and two such names on the same one): refuse before sending.
+    if let Some(bad) = local.keys().find(|p| p.to_str().is_none()) {
+        client.bye();
+        return Err(format!(
+            "{}: file name is not valid UTF-8 and cannot be sent to the hub",
+            bad.display()
+        )
+        .into());
+    }
 
     let (mut sent, mut skipped, mut conflicts) = (0u64, 0u64, 0u64);
     for (rel, fp) in &local {
